@@ -787,6 +787,38 @@ func (c *Ctx) ruleQ3Q4(fns []*ssa.Function) {
 		})
 	}
 	c.floor("Q3", "replicator fetch steps", n, 1)
+	// Q4, load path: the same holds for the fetches that rebuild the log from the cached heads.
+	// The time-out of go-ipfs-log bounds the whole traversal, not one block; when it is up the
+	// fetcher returns what it has with no error (DF7), Load returns nil and the log it shows is
+	// truncated and not closed under ancestry.
+	if !strings.HasPrefix(df7, "false") {
+		for _, f := range c.fnsInPkg("stores/basestore") {
+			if c.isTestFile(f.Pos()) {
+				continue
+			}
+			k := 0
+			eachCall(f, func(call ssa.CallInstruction) {
+				if calleeFull(call) != logMod+".NewFromEntryHash" {
+					return
+				}
+				cons := fmt.Sprintf("%s→fetch#no-timeout#%d", fnKey(f), k)
+				k++
+				var fo ssa.Value
+				for _, a := range call.Common().Args {
+					if p, ok := a.Type().(*types.Pointer); ok && strings.HasSuffix(typeStr(p.Elem()), "FetchOptions") {
+						fo = a
+					}
+				}
+				if v, ok := structLitFields(fo)["Timeout"]; ok {
+					if z, isK := constInt(v); !isK || z != 0 {
+						c.bad("Q4", cons, call.Pos(), "the load path bounds the fetch of a cached head's history with a Timeout. The fetcher has no error result (DF7) and the time-out bounds the whole traversal: on a slow repository or a long history the ancestry fetched so far is returned as if complete, Load returns nil, and the log it shows misses acknowledged entries and is not closed under ancestry")
+						return
+					}
+				}
+				c.ok("Q4", cons, call.Pos(), "the fetch of a cached head's history is not time-bounded")
+			})
+		}
+	}
 }
 
 // G2: progress consumers drain until close.
